@@ -205,9 +205,10 @@ struct RunOpts { uint64_t seed = 1; int shard = 0, nshards = 1; long long cases 
 
 inline void account(Stats& st, const Verdict& v, const J& rec, long long cases, bool hash_distinct) {
   ++st.evals;
-  if (calibrate() && (v.st == Verdict::PASS || v.st == Verdict::FAIL) && v.ratio > 0.25) {
-    J e = J::obj(); e["ratio"] = J::number(v.ratio); e["rel"] = J::str(v.worst); e["msg"] = J::str(v.msg); e["rec"] = rec;
-    st.top.emplace_back(v.ratio, e);
+  if (calibrate() && ((v.st == Verdict::PASS && v.ratio > 0.25) || v.st == Verdict::FAIL)) {
+    double rr = v.st == Verdict::FAIL && !(v.ratio > 1) ? 1e300 : v.ratio;   // boolean relations have no ratio
+    J e = J::obj(); e["ratio"] = J::number(rr); e["rel"] = J::str(v.st == Verdict::FAIL ? v.msg : v.worst); e["msg"] = J::str(v.msg); e["rec"] = rec;
+    st.top.emplace_back(rr, e);
     std::sort(st.top.begin(), st.top.end(), [](const std::pair<double, J>& a, const std::pair<double, J>& b) { return a.first > b.first; });
     { static const size_t lim = std::getenv("VF_TOP") ? (size_t)std::atoi(std::getenv("VF_TOP")) : 8; if (st.top.size() > lim) st.top.resize(lim); }
   }
